@@ -229,8 +229,13 @@ def group_loadable(g):
 def make_registry():
     reg = registry()
     M.install(reg)
+    from pyvc.lib import super_
+
+    super_.install(reg)  # zero-argument super() (the Ptychography.save wrapper delegates with `super().save(...)`)
     for c in CONTRACTS + APPLY_ONLY:
         reg.add_contract(c)
+    # collaborator of the Ptychography.save wrapper: moves tensors between devices, no filesystem access (TRUSTED)
+    reg.opaque_calls = set(getattr(reg, "opaque_calls", ())) | {PTY_TO}
 
     def isinstance_model(interp, x, t):
         if isinstance(x, AbsValue):
@@ -405,6 +410,9 @@ def save_setup_case(storekind, compkind, dang=None):
         ctx.assume(s.k_target.t == w.fs.K0(save_target(s)))
         s.dang_target = ctx.fresh("target_is_dangling_link", "bool")
         ctx.assume(s.dang_target.t == w.fs.DANG0(save_target(s)))
+        # ... and, if it is a directory, the length of its listing (0 = an existing EMPTY directory: an existing target too)
+        s.n_target = ctx.fresh("target_dir_entries", "int")
+        ctx.assume(s.n_target.t == w.fs.NENT0(save_target(s)))
         # case split (obligation names of the dangling-link case carry a tag, all other names are unaffected)
         w.fs.mention(save_target(s))
         if dang is None:
@@ -447,7 +455,8 @@ def blocked(s):
     """Write-once: the target exists and the mode is not 'o'."""
     fs = s.world.fs
     t = save_target(s)
-    # "exists" = the directory entry exists (a dangling symbolic link is an existing target too)
+    # "exists" = the directory entry exists: a file, a directory WHATEVER its listing holds (fs.NENT0(t) does not occur here:
+    # an empty directory is an existing target), a symbolic link (a dangling one too)
     return AND(OR(fs.K0(t) != M.ABSENT, fs.DANG0(t)), P(s, "mode").t != SV("o"))
 
 
@@ -1121,6 +1130,109 @@ C_WBYTES = Contract(
 )
 
 # ------------------------------------------------------------------------------------------------
+# public sibling that writes to disk through the same protocol: Ptychography.save (a wrapper around AutoSerialize.save)
+# ------------------------------------------------------------------------------------------------
+
+PTY = "quantem.diffractive_imaging.ptychography:Ptychography"
+PTY_TO = "quantem.diffractive_imaging.ptychography_base:PtychographyBase.to"
+WRAPPED = ("path", "mode", "store", "compression_level")
+
+
+class AnyObj:
+    """A collaborator the wrapper only reads attributes of / calls methods on (the dataset model): every attribute and
+    every call yields another such object.  It has no access to the ghost filesystem."""
+
+    _pyvc_value = True
+
+    def __getattr__(self, n):
+        if n.startswith("__"):
+            raise AttributeError(n)
+        return AnyObj()
+
+    def __call__(self, *a, **kw):
+        return AnyObj()
+
+
+def same_arg(a, b):
+    if a is None or b is None:
+        return z3.BoolVal(a is None and b is None)
+    if M.is_str(a) or M.is_str(b) or isinstance(a, os.PathLike) or isinstance(b, os.PathLike):
+        return M.sterm(a) == M.sterm(b)
+    return lift(a) == lift(b)
+
+
+class SaveAtCallSite(Contract):
+    """`AutoSerialize.save` as seen by a wrapper: the call-site preconditions say that the callee receives the CALLER'S OWN
+    path / mode / store / compression_level (then write-once, the frame and atomicity of the wrapper are those proved for
+    `AutoSerialize.save`); the callee may raise.  (`Contract.apply` overwrites `s.mode`: the real parameter is kept aside.)"""
+
+    def bind(self, interp, args, kwargs):
+        s = super().bind(interp, args, kwargs)
+        s.param_values = {k: s.get(k) for k in WRAPPED + ("skip",)}
+        return s
+
+
+def sa_requires(s):
+    mine = s.ctx.ghost.get("c08.wrapper_args")
+    if mine is None:
+        raise V.OutOfSubset("AutoSerialize.save reached through an unknown caller")
+    return [(f"the-callee-receives-the-caller's-own-{k}", same_arg(s.param_values[k], mine[k])) for k in WRAPPED]
+
+
+def sa_modifies(ctx, s):
+    w = M.world(ctx)
+    w.save_calls = getattr(w, "save_calls", 0) + 1
+    w.own_effects_before_save = w.effects
+    if not w.faults and ctx.branch(ctx.fresh("fault@AutoSerialize.save", "bool").t):
+        M.raise_fault(ctx, "AutoSerialize.save", "the save failed or refused")
+
+
+C_SAVE_AT_CALL_SITE = SaveAtCallSite(f"{SER}:AutoSerialize.save", requires=sa_requires, modifies=sa_modifies, ensures=lambda s: [],
+                                     setup=lambda ctx: NS())
+
+
+def ps_setup(ctx):
+    w = M.world(ctx)
+    reset_global_state()
+    set_fault_model(w, f"{PTY}.save")
+    path, mode, store = ctx.fresh("path", "str"), ctx.fresh("mode", "str"), ctx.fresh("store", "str")
+    comp = None if ctx.branch(ctx.fresh("compression_level_is_None", "bool").t) else ctx.fresh("compression_level", "int")
+    raw = bool(ctx.branch(ctx.fresh("save_raw_data", "bool").t))
+    me = Obj(resolve(PTY), {"_dset": AnyObj(), "_device": "cpu", "_verbose": 1})
+    if ctx.branch(ctx.fresh("stale_metadata_attribute_present", "bool").t):
+        me.fields["_dataset_metadata"] = {"left": "by an earlier failed save"}
+    s = NS(self=me, path=path, store=store, skip=(), compression_level=comp, save_raw_data=raw, verbose=False, world=w)
+    s.param_values = dict(self=me, path=path, mode=mode, store=store, skip=(), compression_level=comp, save_raw_data=raw, verbose=False)
+    ctx.ghost["c08.wrapper_args"] = dict(path=path, mode=mode, store=store, compression_level=comp)
+    s.case = "save_raw_data" if raw else "metadata-only"
+    return s
+
+
+def ps_clauses(s):
+    w = s.world
+    n = getattr(w, "save_calls", 0)
+    return n, [("the-wrapper-itself-touches-no-path", w.effects == 0 and not w.fs.log),
+               ("no-process-global-state-left-behind", global_state_restored())]
+
+
+def ps_ensures(s):
+    n, out = ps_clauses(s)
+    return [("delegates-exactly-once-to-AutoSerialize.save", n == 1)] + out
+
+
+def ps_on_raise(s, E):
+    n, out = ps_clauses(s)
+    return [("raises-only-because-the-one-delegated-save-raised", n == 1)] + out
+
+
+C_PTYSAVE = Contract(
+    f"{PTY}.save", setup=ps_setup, ensures=ps_ensures, on_raise=ps_on_raise, raises=fault_raises(lambda s: faulted(s)),
+    overrides={f"{SER}:AutoSerialize.save": C_SAVE_AT_CALL_SITE},
+    note="wrapper: verified against the call-site contract of AutoSerialize.save (the callee receives the caller's own path, mode, store, "
+         "compression_level; exactly one delegation; no filesystem effect of its own; a failure of the callee propagates)",
+)
+
+# ------------------------------------------------------------------------------------------------
 # run-time oracle: the same statement on the REAL code, with fault injection by monkey-patching
 # ------------------------------------------------------------------------------------------------
 
@@ -1369,6 +1481,8 @@ def rt_save(inp):
                 os.mkdir(target)
                 with open(os.path.join(target, "keep.txt"), "w") as f:
                     f.write("keep")
+            elif pre == "emptydir":
+                os.mkdir(target)  # an existing target whose listing is empty (e.g. an output folder pre-created by a job script)
             elif pre == "saved":
                 staged = os.path.join(base, "earlier.zip" if target.endswith(".zip") else "earlier")
                 old_obj.save(staged)  # an earlier successful save, moved to the target path
@@ -1561,6 +1675,17 @@ def fam_save(tier="quick", seed=0):
     for store, suffix in (("dir", ".dat"), ("bogus", ""), ("zip", ".zip"), ("dir", "")):
         for mode, pre in (("w", "absent"), ("w", "file"), ("w", "dir"), ("o", "file"), ("x", "saved")):
             yield dict(store=store, mode=mode, suffix=suffix, pre=pre, fault=None)
+    # write-once over every KIND of existing target (an empty directory is an existing target), with and without an
+    # attribute that cannot be stored; overwrite of an empty directory with a fault during serialisation
+    for store, suffix in (("dir", ""), ("zip", ".zip"), ("auto", ""), ("zip", "")):
+        for pre in ("emptydir", "dir", "file", "saved", "symlink", "dangling"):
+            if pre == "symlink" and store == "auto":
+                continue
+            yield dict(store=store, mode="w", suffix=suffix, pre=pre, fault=None)
+            if pre == "emptydir":
+                yield dict(store=store, mode="w", suffix=suffix, pre=pre, fault=None, obj="unpicklable")
+                yield dict(store=store, mode="o", suffix=suffix, pre=pre, fault=None)
+                yield dict(store=store, mode="o", suffix=suffix, pre=pre, fault=["serialize", 1])
     for store, suffix in (("zip", ".zip"), ("dir", "")):
         for mode, pre in (("w", "absent"), ("o", "saved")):
             for ok_ in UNSTORABLE_OBJECTS:
@@ -1601,11 +1726,15 @@ def conc_save_case(storekind):
         if store == "auto" and storekind == "zip":
             suffix = ".zip"
         kind = ev("target_kind", 0)
-        pre = {0: "absent", 1: "linked", 2: "saved"}.get(kind, "absent")  # linked: rt tries plain file / symlink / hard link
+        pre = {0: "absent", 1: "linked", 2: "anydir"}.get(kind, "absent")  # linked: rt tries plain file / symlink / hard link
+        if kind == 2 and ev("target_dir_entries", 1) == 0:
+            pre = "emptydir"   # an existing directory with an empty listing
         if kind == 0 and ev("target_is_dangling_link", False):
             pre = "dangling"
         if mode == "w" and pre not in ("absent", "dangling") and any(n.startswith("fault@") and z3.is_true(v) for n, v in ev.table.items()):
-            pre = "absent"
+            # a write was reached in write-once mode: either the existence test let this kind of target through, or the model's
+            # target kind is unconstrained; rt tries the target as the model describes it first, then an absent one
+            pre = [pre, "absent"]
         site = None
         for name, val in ev.table.items():
             if name.startswith("fault@") and z3.is_true(val):
@@ -1641,9 +1770,17 @@ def rt_save_any_k(inp):
                 last["observed"] = f"[injected {exc}] " + last["observed"]
                 return last
         return last
-    if inp.get("pre") == "linked":
+    if isinstance(inp.get("pre"), list):
         last = None
-        for pre in ("saved", "symlink", "hardlink"):
+        for pre in inp["pre"]:
+            last = rt_save_any_k(dict(inp, pre=pre))
+            if last["violated"]:
+                return last
+        return last
+    if inp.get("pre") in ("linked", "anydir"):
+        last = None
+        zip_target = spec_target("t" + inp.get("suffix", ""), inp.get("store", "auto"))[0] == "zip"
+        for pre in (("saved", "symlink", "hardlink") if inp["pre"] == "linked" else ("dir", "emptydir") + (() if zip_target else ("saved",))):
             last = rt_save_any_k(dict(inp, pre=pre))
             if last["violated"]:
                 last["observed"] = f"[target pre-state: {pre}] " + last["observed"]
@@ -1689,7 +1826,78 @@ for (_sk, _ck, _dg), _c in zip(SAVE_CASES, C_SAVES):
 for _c in (C_RSAVE, C_SVALUE, C_SCONT, C_WNDARRAY, C_WBYTES):
     _c.concretize, _c.rt, _c.rt_family = None, rt_save_any_k, fam_small
 
-CONTRACTS = C_SAVES + [C_RSAVE, C_SVALUE, C_SCONT, C_WNDARRAY, C_WBYTES]
+def rt_pty_save(inp):
+    """The wrapper's statement on the REAL Ptychography.save: a bare instance (no reconstruction state), `to` stubbed, the
+    delegated AutoSerialize.save replaced by a recorder that optionally fails; the wrapper must hand over the caller's own
+    path / mode / store / compression_level exactly once, propagate the failure and touch no path itself."""
+    import types
+    from unittest import mock
+
+    import torch
+
+    Pty = resolve(PTY)
+    base = tempfile.mkdtemp(prefix="c08pty_")
+    calls, problems = [], []
+    try:
+        me = object.__new__(Pty)
+        t = types.SimpleNamespace(data=torch.zeros(1))
+        me.__dict__.update(_device="cpu", _verbose=0, _dset=types.SimpleNamespace(
+            dset=types.SimpleNamespace(file_path=None), _preprocessing_params={}, scan_positions_px=t, descan_shifts=t))
+        path = os.path.join(base, "t" + inp.get("suffix", ""))
+        args = dict(path=path, mode=inp.get("mode", "w"), store=inp.get("store", "auto"), compression_level=inp.get("compression_level", 4))
+
+        def recorder(self_, path, mode="w", store="auto", skip=(), compression_level=4):
+            calls.append(dict(path=path, mode=mode, store=store, compression_level=compression_level))
+            if inp.get("fail"):
+                raise InjectedFailure("delegated save failed")
+
+        if inp.get("pre", True):
+            with open(path, "w") as f:  # an existing target: the wrapper must leave it to the delegated save
+                f.write("existing target")
+        before = sorted(os.listdir(base))
+        exc = None
+        with mock.patch.object(AS, "save", recorder), mock.patch.object(Pty, "to", lambda self_, d: None):
+            try:
+                Pty.save(me, save_raw_data=bool(inp.get("save_raw_data")), verbose=False, **args)
+            except Exception as e:  # noqa: BLE001
+                exc = e
+        if len(calls) != 1:
+            problems.append(f"AutoSerialize.save was called {len(calls)} times")
+        elif any(str(calls[0][k]) != str(args[k]) for k in WRAPPED):
+            problems.append(f"the delegated save received {calls[0]} instead of the caller's {args}")
+        if sorted(os.listdir(base)) != before:
+            problems.append("the wrapper itself created / removed a path")
+        if bool(inp.get("fail")) != isinstance(exc, InjectedFailure):
+            problems.append(f"delegated save {'failed' if inp.get('fail') else 'returned'} but the wrapper {'raised ' + type(exc).__name__ if exc else 'returned normally'}")
+    except Exception as e:  # noqa: BLE001
+        problems.append(f"oracle: {type(e).__name__}: {e}")
+    finally:
+        shutil.rmtree(base, ignore_errors=True)
+    return dict(violated=bool(problems), klass="wrapper", observed="; ".join(problems) or "ok",
+                expected="Ptychography.save delegates exactly once with the caller's own path/mode/store/compression_level, adds no "
+                         "filesystem effect and propagates a failure of the delegated save")
+
+
+def fam_pty():
+    for mode in ("w", "o"):
+        for store, suffix in (("auto", ".zip"), ("dir", ""), ("zip", "")):
+            for comp in (4, None):
+                for raw in (False, True):
+                    for fail in (False, True):
+                        yield dict(mode=mode, store=store, suffix=suffix, compression_level=comp, save_raw_data=raw, fail=fail, pre=(comp is None))
+
+
+def conc_pty(ev):
+    store, mode, path = ev("store"), ev("mode"), str(ev("path") or "")
+    fail = any(n.startswith("fault@") and z3.is_true(v) for n, v in ev.table.items())
+    return dict(mode=mode if mode in ("w", "o") else "w", store=store if store in ("auto", "zip", "dir") else "auto",
+                suffix=".zip" if path.endswith(".zip") else "", compression_level=None if ev("compression_level_is_None", False) else ev("compression_level", 4),
+                save_raw_data=bool(ev("save_raw_data", False)), fail=fail)
+
+
+C_PTYSAVE.concretize, C_PTYSAVE.rt, C_PTYSAVE.rt_family = conc_pty, rt_pty_save, fam_pty
+
+CONTRACTS = C_SAVES + [C_RSAVE, C_SVALUE, C_SCONT, C_WNDARRAY, C_WBYTES, C_PTYSAVE]
 APPLY_ONLY = []
 
 # ------------------------------------------------------------------------------------------------
@@ -1724,11 +1932,19 @@ BOUNDED = [
                     "exception raised at the k-th call of every fault site (serialize, zarr writes, skip metadata, zip open/write, makedirs, "
                     "rmtree, remove, temp dir, zarr.group), both stores, modes w/o, target absent/file/dir/earlier save, refusals, an unpicklable "
                     "attribute; quick: one 6-attribute object, every k for mode='o' over an earlier save and {first, second, middle, last} k elsewhere; "
-                    "thorough: every k everywhere, store='auto' too, a second object with tensors and containers", klass=_klass),
+                    "thorough: every k everywhere, store='auto' too, a second object with tensors and containers; write-once over every kind "
+                    "of existing target (empty directory, directory with entries, file, earlier save, symlink, dangling symlink)", klass=_klass),
+    Bounded.from_rt("Ptychography.save wrapper delegation on the real code", rt_pty_save, lambda tier="quick", seed=0: fam_pty(),
+                    "48 argument combinations (mode, store/suffix, compression_level, save_raw_data, delegated save fails / returns) on a bare "
+                    "Ptychography instance with the delegated AutoSerialize.save replaced by a recorder", klass=_klass),
 ]
 
 TRUSTED = [
-    "pyvc/lib/c08_models.py: ghost filesystem and the effects of os.path.exists/isdir, os.remove, shutil.rmtree, os.makedirs, os.replace",
+    "pyvc/lib/c08_models.py: ghost filesystem and the effects of os.path.exists/lexists/isdir/isfile/islink/getsize, os.listdir/scandir "
+    "(a directory has a listing of NENT >= 0 entries: 0 for an existing empty directory and for one just created, >= 1 once a zarr group was "
+    "created in it), os.remove, shutil.rmtree, os.makedirs, os.replace",
+    "PtychographyBase.to(device) (collaborator of the Ptychography.save wrapper) has no filesystem effect; the dataset model the wrapper reads "
+    "its reload metadata from is an arbitrary object without filesystem access",
     "tempfile.TemporaryDirectory: fresh path (did not exist, differs from every path the caller names), removed by its context manager on every exit",
     "zipfile.ZipFile(p,'w'): truncates at construction, unreadable until closed, close()/__exit__ writes the central directory even if the body raised; append-only",
     "zarr.group(LocalStore(p), overwrite=True): p becomes a directory with an empty root group; group writes go to p in place; root attrs live in p/zarr.json",
@@ -1749,12 +1965,15 @@ ASSUMPTIONS = [
     "objects are instances of plain classes (obj.__dict__ with a SYMBOLIC number of attributes), not attrs classes; skip=() in `save` "
     "(arbitrary skip sets in _recursive_save; skip-list algebra itself is C14)",
     "container WIDTH is that of the representatives (<= 3 items, unrolled); depth is by contract (recursive calls go through the callee contracts)",
-    "single-fault model (the property's quantifier injects one exception per save)",
+    "single-fault model (the property's quantifier injects ONE exception per save, among the serializer's writes and the zip assembly; a "
+    "second failure inside the cleanup handler - os.remove of the truncated archive raising, rmtree(ignore_errors=True) silently giving up - "
+    "is outside the statement and is not explored)",
+    "Ptychography.save: verbose=False (the verbose branch only prints the resolved path); skip=() at the wrapper (it appends its own names)",
     "complete(target) for the atomicity clause = marker + every non-skipped attribute; the skip metadata is required only of a SUCCESSFUL save "
     "(a target lacking only its skip lists does not load to an object missing attributes)",
 ]
 EXPLANATION = ("exceptional and normal postconditions of the real AutoSerialize.save / _recursive_save / _serialize_value / _serialize_container / "
-               "_write_ndarray / _write_bytes over a ghost filesystem and ghost zarr groups, VCs generated from the source with an exception forked "
+               "_write_ndarray / _write_bytes (and of the public wrapper Ptychography.save against call-site preconditions of AutoSerialize.save) over a ghost filesystem and ghost zarr groups, VCs generated from the source with an exception forked "
                "at every may-raise call (loops: at an arbitrary iteration through invariants), discharged by z3/cvc5; fault injection at every write "
                "position on the real code as bounded stand-in")
 REPLAY = {}
